@@ -545,6 +545,36 @@ func TestVerifC03(t *testing.T) {
 		cfgs = append(cfgs, enumConfigs([]int{3}, scriptSpace{failDo: 1, failUndo: 1, requireFail: true, specials: []script{sNoUndo, sWaitDone}, maxSpecial: 1}, true, []int{0, 1})...)
 		cfgs = append(cfgs, enumConfigs([]int{4}, scriptSpace{failDo: 1, failUndo: 1, specials: []script{sNoUndo, sWaitDone}, maxSpecial: 1}, false, []int{0, 2})...)
 	}
+	// the order in which tasks were added to the change is independent of the dependency order and matters to
+	// Change.Abort (it walks the task list): a family with every non-identity add-order
+	{
+		maxN := r.Pick(3, 3)
+		var ns []int
+		for n := 2; n <= maxN; n++ {
+			ns = append(ns, n)
+		}
+		base := enumConfigs(ns, scriptSpace{failDo: 1, failUndo: 0, specials: []script{sNoUndo, sWaitDone}, maxSpecial: r.Pick(0, 1)}, false, []int{0})
+		for _, c := range base {
+			idx := make([]int, c.N)
+			for i := range idx {
+				idx[i] = i
+			}
+			for _, p := range permutations(idx) {
+				ident := true
+				for i, v := range p {
+					if i != v {
+						ident = false
+					}
+				}
+				if ident {
+					continue
+				}
+				c2 := *c
+				c2.Order = p
+				cfgs = append([]*erConfig{&c2}, cfgs...) // explored first
+			}
+		}
+	}
 	r.Info("bounds", map[string]interface{}{"configurations": len(cfgs), "max_user_aborts": r.Pick(1, 2)})
 	spec := &erRunSpec{prop: "C03", configs: cfgs, al: alphabet{resolve: true, abort: r.Pick(1, 2)},
 		newObs: func() observer { return &c03Obs{} },
